@@ -13,6 +13,7 @@ import SfntV.Proofs.CffWidths
 import SfntV.Proofs.CffStrings
 import SfntV.Proofs.CffEncodingRt
 import SfntV.Proofs.CffWrite
+import SfntV.Proofs.CffFontRt
 import SfntV.Generated.Cff
 
 namespace SfntV.Props.C13
@@ -324,6 +325,8 @@ theorem C13_layout_consistent (std : List String) (f : FontIn) (file : Bytes) (p
       obtain ⟨blobs, offs, k⟩ := r
       rw [hl] at h
       simp only at h
+      split at h
+      case isFalse => cases h
       injection h with h
       injection h with h1 h2
       obtain ⟨hb, hs⟩ := writeLoop_exit _ _ _ _ _ _ _ _ hl
@@ -358,6 +361,112 @@ def tinyFont : FontIn where
 example : writeFont [".notdef"] tinyFont =
     .ok ([1, 0, 4, 1, 0, 1, 1, 1, 2, 65, 0, 1, 1, 1, 8, 169, 15, 172, 17, 144, 180, 18, 0, 1, 1, 1, 2, 65, 0, 0,
           0, 0, 1, 0, 2, 1, 1, 2, 3, 14, 14, 144, 19, 248, 136, 20, 0, 0], 2) := by decide +kernel
+
+/-! ## whole fonts: `cff.Read (Write f)` -/
+
+/-- `privatedict_roundtrip`: every field of a `type1.PrivateDict` (BlueValues and OtherBlues as
+delta-encoded arrays in int16 arithmetic, BlueScale, BlueShift, BlueFuzz, StdHW, StdVW, ForceBold)
+and the default/nominal widths and the Subrs offset survive `makePrivateDict` → `encode` →
+`decodeDict` → the accessors of `readPrivate`; defaults are omitted and restored (BlueScale
+within 1e-6 of 0.039625, BlueShift 7, BlueFuzz 1, StdHW/StdVW 0, widths 0).  (The Go type has no
+StemSnap or FamilyBlues fields.) -/
+theorem C13_privatedict_roundtrip (std custom : Array String) (p : PrivIn) (dw nw sub : Int)
+    (h : PrivDom p dw nw sub) :
+    ∃ pd, decodeDict std custom (encodeDict (privDictOf p dw nw sub)) = .ok pd ∧
+      dDelta pd 6 = p.blueValues ∧ dDelta pd 7 = p.otherBlues ∧
+      dInt pd 3082 7 = p.blueShift ∧ dInt pd 3083 1 = p.blueFuzz ∧
+      (decide (dInt pd 3086 0 ≠ 0)) = p.forceBold ∧
+      dFloat pd 3081 (false, 39625, -6)
+        = (if farApart p.blueScale (false, 39625, -6) (-6) then p.blueScale else (false, 39625, -6)) ∧
+      dFloat pd 10 Rl.zero = p.stdHW ∧ dFloat pd 11 Rl.zero = p.stdVW ∧
+      dFloat pd 20 Rl.zero = Rl.ofInt dw ∧ dFloat pd 21 Rl.zero = Rl.ofInt nw ∧
+      dInt pd 19 0 = sub :=
+  privatedict_fields std custom p dw nw sub h
+
+/-- `topdict_roundtrip` (simple fonts): the Top DICT written by `Write` — FontInfo strings through
+SIDs of the final string table, IsFixedPitch, ItalicAngle, UnderlinePosition/Thickness (integers
+or reals), FontMatrix, Encoding, and the offsets/sizes of charset, CharStrings and Private — is
+decoded by `decodeDict` to exactly its own entries in `sortedKeys` order, strings restored. -/
+theorem C13_topdict_roundtrip (std c : List String) (f : FontIn) (h : TopDom f) (pdSize pdOffs csOffs cstrOffs : Int)
+    (ha : I32 pdSize) (hb : I32 pdOffs) (hc : I32 csOffs) (hd : I32 cstrOffs)
+    (hlen : std.length + (encodeDictS std c (topSimple f pdSize pdOffs csOffs cstrOffs)).2.length < 2147483647) :
+    decodeDict std.toArray (encodeDictS std c (topSimple f pdSize pdOffs csOffs cstrOffs)).2.toArray
+        (encodeDictS std c (topSimple f pdSize pdOffs csOffs cstrOffs)).1
+      = .ok ((sortDict (topSimple f pdSize pdOffs csOffs cstrOffs)).map fun e => (e.1, e.2.map decOperand)) :=
+  topSimple_decode std c f h pdSize pdOffs csOffs cstrOffs ha hb hc hd hlen
+
+/-- `C13_font_roundtrip`, simple fonts with the Standard or Expert encoding (the property's first
+sentence for this class): whenever the model of `(*Font).Write` produces a file (shorter than
+2 GiB) for a font in `SimpleDom`, the model of `cff.Read` reads that file and delivers the
+normal form `nfSimple`: font name, the six FontInfo strings (absent = empty), IsFixedPitch,
+ItalicAngle (normalised to [−180, 180)), underline position and thickness (defaults −100 and 50
+restored), the font matrix (the default restored when within 1e-5 of it), the charstrings
+unchanged, the glyph names through their SIDs, the predefined encoding derived from the names,
+the private DICT `nfPriv` (every field, defaults restored, no local subrs), FD 0 for every
+glyph.  Both models are tied to the Go code byte-exactly (`cff.file.model`) and by outcome and
+every decoded field on written and damaged files (`cff.file.read`). -/
+theorem C13_font_roundtrip_simple (T : Tables) (f : FontIn) (p : PrivIn) (hd : SimpleDom T.std.toList f p)
+    (file : Bytes) (passes : Nat) (h : writeFont T.std.toList f = .ok (file, passes))
+    (hsize : file.length < 2147483648) :
+    readFont T file = .ok (nfSimple T f p) :=
+  readFont_writeFont_simple T f p hd file passes h hsize
+
+/-- The full statement (not proved): the same for simple fonts with a custom encoding and for
+CID-keyed fonts with several private dictionaries (normal form `nf`: additionally the encoding
+vector, ROS, GIDToCID, the FD of every glyph, one font matrix and private DICT per FD).  The
+section theorems it needs are proved (`C13_encoding_roundtrip`, `C13_fdselect_roundtrip`,
+`C13_charset_roundtrip`, `C13_privatedict_roundtrip`, `C13_layout_consistent`); the composition
+for these two classes is evaluated by the streams `cff.file.model`, `cff.file.read`,
+`cff.file.rt`, `cff.file.spec` only. -/
+def C13_font_roundtrip_full : Prop :=
+  ∀ (T : Tables) (f : FontIn) (file : Bytes) (passes : Nat), writeFont T.std.toList f = .ok (file, passes) →
+    file.length < 2147483648 →
+    ∃ out, readFont T file = .ok out ∧ out.charStrings = f.charStrings ∧ out.fontName = f.fontName ∧
+      out.isCID = f.ros.isSome ∧ (f.ros.isSome → out.charset = f.cids ∧ out.fds = f.fds.map Int.toNat) ∧
+      (f.ros = none → out.names = f.names)
+
+def tinyPriv : PrivIn := { blueValues := [], otherBlues := [], blueShift := 7, blueFuzz := 1, forceBold := false }
+
+theorem realDom_default : RealDom (false, 39625, -6) := Or.inr ⟨by decide, by decide, by decide, by decide, by decide⟩
+theorem realDom_zero : RealDom Rl.zero := Or.inl ⟨rfl, rfl, rfl⟩
+theorem realDom_milli : RealDom (false, 1, -3) := Or.inr ⟨by decide, by decide, by decide, by decide, by decide⟩
+
+/-- the two-glyph font is in the domain -/
+theorem tinyFont_dom : SimpleDom [".notdef"] tinyFont tinyPriv where
+  ros := rfl
+  privs := rfl
+  enc := Or.inl rfl
+  top := { ulPos := by simp [tinyFont, ValidOperand], ulThick := by simp [tinyFont, ValidOperand],
+           angle := realDom_zero,
+           fm := by
+             intro x hx
+             simp [tinyFont, defaultFM] at hx
+             rcases hx with rfl | rfl | rfl | rfl <;> first | exact realDom_milli | exact realDom_zero }
+  priv := fun sub hs => { bv := by intro x hx; simp [tinyPriv] at hx, ob := by intro x hx; simp [tinyPriv] at hx,
+                          bs := by decide, bf := by decide, dw := by decide, nw := by decide, sub := hs,
+                          scale := realDom_default, hw := realDom_zero, vw := realDom_zero }
+  nameLen := by decide
+  nGlyphs := rfl
+  nPos := by decide
+  nMax := by decide
+  csBody := by decide
+  notdef := by decide
+  latin := by
+    intro s hs c hc
+    simp [tinyFont] at hs
+    rcases hs with (rfl | rfl) | rfl <;> simp at hc <;> (try (rcases hc with rfl | rfl | rfl | rfl | rfl | rfl | rfl <;> decide)) <;> (try (subst hc; decide))
+  fmLen := rfl
+
+
+def tinyTables : Tables :=
+  { std := #[".notdef"], isoAdobe := [], expert := [], expertSubset := [], expertEnc := [], standardEncRev := [] }
+
+-- non-vacuity of `C13_font_roundtrip_simple`: the file written above is read back
+example : readFont tinyTables
+    [1, 0, 4, 1, 0, 1, 1, 1, 2, 65, 0, 1, 1, 1, 8, 169, 15, 172, 17, 144, 180, 18, 0, 1, 1, 1, 2, 65, 0, 0,
+     0, 0, 1, 0, 2, 1, 1, 2, 3, 14, 14, 144, 19, 248, 136, 20, 0, 0]
+      = .ok (nfSimple tinyTables tinyFont tinyPriv) :=
+  C13_font_roundtrip_simple tinyTables tinyFont tinyPriv tinyFont_dom _ 2 (by decide +kernel) (by decide)
 
 /-! ## regenerated facts the models depend on -/
 
